@@ -786,3 +786,31 @@ add("D9", "break", NB, "_group_func_wrap", "chunked_args = _chunk_groupby_args(*
 add("P1", "break", NB, "_group_func_wrap", "    if orig_type.kind in 'mM' and (not counting):\n        result = result.astype(orig_type)\n", "", name="P1 reductions of temporal values never restored")
 add("P1", "keep", NB, "_group_func_wrap", "    if orig_type.kind in 'mM' and (not counting):\n        result = result.astype(orig_type)\n", "    if not counting:\n        if orig_type.kind in 'mM':\n            result = result.astype(orig_type)\n", name="P1 counting test outside")
 add("P1", "break", NB, "_group_func_wrap", "    if orig_type.kind in 'mM' and (not counting):\n        result = result.astype(orig_type)\n", "    if orig_type.kind in 'mM':\n        result = result.astype(orig_type)\n", name="P1 counts cast to the temporal dtype (the defect repaired in /repo)")
+
+# ---- round 4 rules: E8, MG1 (container kind), PC1 (null guard), A14, T5, V1
+_E8_OLD = "group_key = np.repeat(np.arange(self.ngroups), group_counts)"
+add("E8", "break", CORE, "GroupBy.ema", _E8_OLD, "group_key = result_index.codes[0]", name="E8 codes of the outer index level")
+add("E8", "break", CORE, "GroupBy.ema", _E8_OLD, "group_key = pd.factorize(result_index.get_level_values(0))[0]", name="E8 factorised first level")
+add("E8", "keep", CORE, "GroupBy.ema", _E8_OLD, "group_key = np.arange(self.ngroups).repeat(group_counts)", name="E8 method form of repeat")
+add("E8", "keep", CORE, "GroupBy.ema", _E8_OLD, "group_key = self.group_ikey[indexer]", name="E8 the grouping's own codes re-ordered")
+_AM_OLD = "    if np.ndim(margins) == 1:\n        levels = list(margins)\n    else:\n        levels = None\n"
+add("MG1", "break", CORE, "GroupBy._add_margins", _m(_AM_OLD), _m("    if isinstance(margins, list):\n        levels = list(margins)\n    else:\n        levels = None\n"), name="MG1 only a list counts as levels")
+add("MG1", "break", CORE, "GroupBy._add_margins", _m(_AM_OLD), _m("    if type(margins) is list:\n        levels = list(margins)\n    else:\n        levels = None\n"), name="MG1 type(margins) is list")
+add("MG1", "keep", CORE, "GroupBy._add_margins", _m(_AM_OLD), _m("    if isinstance(margins, (list, tuple, np.ndarray)):\n        levels = list(margins)\n    else:\n        levels = None\n"), name="MG1 all sequence containers")
+add("MG1", "keep", CORE, "GroupBy._add_margins", _m(_AM_OLD), _m("    if np.ndim(margins) != 1:\n        levels = None\n    else:\n        levels = list(margins)\n"), name="MG1 arms swapped")
+_PC_OLD = "is_integer = np_type.kind in 'ui' and bins.dtype.kind in 'ui'"
+add("PC1", "break", UTIL, "pretty_cut", _PC_OLD, "is_integer = bins.dtype.kind in 'ui' and (np_type.kind in 'ui' or precision == 0)", name="PC1 integer labels for float data: nulls unmasked")
+add("PC1", "break", UTIL, "pretty_cut", _PC_OLD, "is_integer = bins.dtype.kind in 'ui'", name="PC1 integer flag from the bins alone")
+add("PC1", "keep", UTIL, "pretty_cut", _PC_OLD, "is_integer = bins.dtype.kind in 'ui' and np_type.kind in 'ui'", name="PC1 conjuncts swapped")
+add("A14", "break", CORE, "GroupBy._preprocess_arguments", "to_check = list(value_list)", "to_check = value_list", name="A14 alias instead of snapshot")
+add("A14", "break", CORE, "GroupBy._preprocess_arguments", "common_index = _validate_input_lengths_and_indexes(to_check)", "common_index = _validate_input_lengths_and_indexes(value_list if not mask_is_boolean else [*value_list, mask])", name="A14 converted list validated")
+add("A14", "keep", CORE, "GroupBy._preprocess_arguments", "to_check = list(value_list)", "to_check = [*value_list]", name="A14 snapshot by unpacking")
+add("A14", "keep", CORE, "GroupBy._preprocess_arguments", "to_check = list(value_list)", "to_check = value_list.copy()", name="A14 snapshot by copy()")
+add("T5", "break", NB, "_apply_cumulative", "orig_dtype = orig_dtypes[0]", "orig_dtype = orig_dtypes[0]\n    if orig_dtype.kind in 'mM' and (not skip_na):\n        values = tuple((np.where(v == MIN_INT, np.nan, v) for v in values))", name="T5 NaT -> NaN in the int views")
+add("T5", "break", NB, "_apply_cumulative", "orig_dtype = orig_dtypes[0]", "orig_dtype = orig_dtypes[0]\n    values = [v.astype('float64') for v in values]", name="T5 int views cast to float64")
+add("T5", "break", NB, "_group_func_wrap", "    if reduce_func_name == 'sum_squares':\n        values = [v.astype(float) for v in values]\n", "    values = [v.astype(float) for v in values]\n", name="T5 every reduction on floats")
+add("T5", "keep", NB, "_group_func_wrap", "    if reduce_func_name == 'sum_squares':\n        values = [v.astype(float) for v in values]\n", "    if reduce_func_name in ('sum_squares',):\n        values = [np.asarray(v).astype(float) for v in values]\n", name="T5 float conversion for the sum of squares only")
+add("V1", "break", CORE, "value_counts", "vc = vc / vc.sum()", "vc = vc / len(x)", name="V1 divided by the number of rows")
+add("V1", "break", CORE, "value_counts", "vc = vc / vc.sum()", "vc = vc / (len(x) if mask is None else vc.sum())", name="V1 row count without a mask")
+add("V1", "keep", CORE, "value_counts", "vc = vc / vc.sum()", "total = vc.sum()\n        vc = vc / total", name="V1 total through a local")
+add("V1", "keep", CORE, "value_counts", "vc = vc / vc.sum()", "vc /= vc.sum()", name="V1 in-place division")
